@@ -784,7 +784,9 @@ package saml
 
 //@ -- ------------------------------------------------------------------------------------------
 //@ -- C15: the numeric core of durations and instants (the lexical layer - fmt, regexp, strconv, time.Parse/Format - is assumed)
-//@ globalinv duration_patterns: durationRegexp != nil && durationTimeRegexp != nil && durationRegexp.NumSubexp() == 5 && durationTimeRegexp.NumSubexp() == 3
+//@ globalinv duration_patterns: durationRegexp != nil && durationTimeRegexp != nil
+//@ -- the number of capture groups of the two literal patterns is a fact about regexp's parse of them: assumed
+//@ configinv duration_groups: durationRegexp.NumSubexp() == 5 && durationTimeRegexp.NumSubexp() == 3
 
 //@ go func durationParts(d Duration, h, m, s, n time.Duration) bool {
 //@    return int64(d) == int64(h)*3600000000000+int64(m)*60000000000+int64(s)*1000000000+int64(n) &&
